@@ -192,6 +192,8 @@ class SolverSeam(object):
             v0 = seam.scen.get('v0')
             if v0 is not None and 'v0' not in kw:
                 kw['v0'] = start_vector(n, v0['cls'], v0['seed'], j)
+                if 'rng' not in kw:
+                    kw['rng'] = gen_rng(v0['seed'], 8, j, n)   # ARPACK restarts draw from this generator, not from the OS
             try:
                 return real(*a, **kw)
             except Exception as e:
